@@ -319,4 +319,495 @@ theorem fLatE_eq (R : Rounding fl) (e o : Msg) (he : e.lat < 131072) (ho : o.lat
   · rw [R.exact _ x3]
   · rfl
 
+/-! ### longitude zone index `m` (l.290-296): exact for every `nl ∈ 1..59` -/
+
+/-- l.291-294: `(nl − 1) as f64`, `nl as f64`, the two products, their difference, `+ 0.5` and the floor are
+    binary64 values for all 17-bit fields and all `nl = k + 1 ∈ 1..59`; `-59 ≤ m ≤ 58`. -/
+theorem m_f64exact (a b k : ℕ) (ha : a < 131072) (hb : b < 131072) (hk : k + 1 ≤ 59) :
+    F64Exact ((k : ℕ) : ℚ) ∧ F64Exact ((k + 1 : ℕ) : ℚ) ∧
+    F64Exact ((a : ℚ) / 131072 * (k : ℚ)) ∧ F64Exact ((b : ℚ) / 131072 * ((k + 1 : ℕ) : ℚ)) ∧
+    F64Exact ((a : ℚ) / 131072 * (k : ℚ) - (b : ℚ) / 131072 * ((k + 1 : ℕ) : ℚ)) ∧
+    F64Exact ((a : ℚ) / 131072 * (k : ℚ) - (b : ℚ) / 131072 * ((k + 1 : ℕ) : ℚ) + 1 / 2) ∧
+    (-59 ≤ ⌊(a : ℚ) / 131072 * (k : ℚ) - (b : ℚ) / 131072 * ((k + 1 : ℕ) : ℚ) + 1 / 2⌋ ∧
+      ⌊(a : ℚ) / 131072 * (k : ℚ) - (b : ℚ) / 131072 * ((k + 1 : ℕ) : ℚ) + 1 / 2⌋ ≤ 58) ∧
+    F64Exact ((⌊(a : ℚ) / 131072 * (k : ℚ) - (b : ℚ) / 131072 * ((k + 1 : ℕ) : ℚ) + 1 / 2⌋ : ℤ) : ℚ) := by
+  have hP1 : a * k ≤ 131071 * 58 := Nat.mul_le_mul (by omega) (by omega)
+  have hP2 : b * (k + 1) ≤ 131071 * 59 := Nat.mul_le_mul (by omega) (by omega)
+  generalize hp1 : a * k = P1 at hP1
+  generalize hp2 : b * (k + 1) = P2 at hP2
+  have e1 : (a : ℚ) / 131072 * (k : ℚ) = ((P1 : ℤ) : ℚ) / 131072 := by
+    rw [← hp1]; push_cast; ring
+  have e2 : (b : ℚ) / 131072 * ((k + 1 : ℕ) : ℚ) = ((P2 : ℤ) : ℚ) / 131072 := by
+    rw [← hp2]; push_cast; ring
+  have hr : -59 ≤ ⌊(a : ℚ) / 131072 * (k : ℚ) - (b : ℚ) / 131072 * ((k + 1 : ℕ) : ℚ) + 1 / 2⌋ ∧
+      ⌊(a : ℚ) / 131072 * (k : ℚ) - (b : ℚ) / 131072 * ((k + 1 : ℕ) : ℚ) + 1 / 2⌋ ≤ 58 := by
+    rw [e1, e2]
+    have hk' : P1 ≤ 131071 * k := by rw [← hp1]; exact Nat.mul_le_mul_right k (by omega)
+    have hk'' : P2 ≤ 131071 * (k + 1) := by rw [← hp2]; exact Nat.mul_le_mul_right (k + 1) (by omega)
+    have q1 : (P1 : ℚ) ≤ 131071 * (k : ℚ) := by exact_mod_cast hk'
+    have q2 : (P2 : ℚ) ≤ 131071 * ((k : ℚ) + 1) := by exact_mod_cast hk''
+    have q3 : (0 : ℚ) ≤ (P1 : ℚ) := by positivity
+    have q4 : (0 : ℚ) ≤ (P2 : ℚ) := by positivity
+    have q5 : (k : ℚ) ≤ 58 := by exact_mod_cast (by omega : k ≤ 58)
+    constructor
+    · rw [Int.le_floor]; push_cast; linarith
+    · have : ⌊((P1 : ℤ) : ℚ) / 131072 - ((P2 : ℤ) : ℚ) / 131072 + 1 / 2⌋ < 59 := by
+        rw [Int.floor_lt]; push_cast; linarith
+      omega
+  refine ⟨f64exact_of_int k (by push_cast; rfl) (by rw [abs_lt]; constructor <;> omega),
+    f64exact_of_int ((k : ℤ) + 1) (by push_cast; rfl) (by rw [abs_lt]; constructor <;> omega),
+    f64exact_17 P1 e1 (by rw [abs_lt]; constructor <;> omega),
+    f64exact_17 P2 e2 (by rw [abs_lt]; constructor <;> omega),
+    f64exact_17 ((P1 : ℤ) - P2) (by rw [e1, e2]; push_cast; ring) (by rw [abs_lt]; constructor <;> omega),
+    f64exact_17 ((P1 : ℤ) - P2 + 65536) (by rw [e1, e2]; push_cast; ring)
+      (by rw [abs_lt]; constructor <;> omega),
+    hr, f64exact_int _ (by rw [abs_lt]; constructor <;> omega)⟩
+
+/-- **`m` is computed exactly**, for every value `n ∈ 1..59` of `nl(lat)` -/
+theorem fM_eq (R : Rounding fl) (e o : Msg) (n : ℕ) (he : e.lon < 131072) (ho : o.lon < 131072)
+    (hn1 : 1 ≤ n) (hn : n ≤ 59) : fM fl e o n = gMn e o n := by
+  obtain ⟨k, rfl⟩ : ∃ k, n = k + 1 := ⟨n - 1, by omega⟩
+  obtain ⟨h1, h2, h3, h4, h5, h6, _, _⟩ := m_f64exact e.lon o.lon k he ho hn
+  unfold fM gMn
+  have hk : k + 1 - 1 = k := by omega
+  rw [hk, fCpr_eq R _ he, fCpr_eq R _ ho, R.exact _ h1, R.exact _ h2, R.exact _ h3, R.exact _ h4,
+    R.exact _ h5, R.exact _ h6, cprMax_eq]
+
+theorem gMn_range (e o : Msg) (n : ℕ) (he : e.lon < 131072) (ho : o.lon < 131072)
+    (hn1 : 1 ≤ n) (hn : n ≤ 59) : -59 ≤ gMn e o n ∧ gMn e o n ≤ 58 := by
+  obtain ⟨k, rfl⟩ : ∃ k, n = k + 1 := ⟨n - 1, by omega⟩
+  have hk : k + 1 - 1 = k := by omega
+  unfold gMn; rw [cprMax_eq, hk]
+  exact (m_f64exact e.lon o.lon k he ho hn).2.2.2.2.2.2.1
+
+/-- l.290: `ni = max(nl − p, 1) as f64` is a binary64 value in `1..59` -/
+theorem ni_f64exact (n p : ℕ) (hn : n ≤ 59) :
+    F64Exact ((max (n - p) 1 : ℕ) : ℚ) ∧ 1 ≤ max (n - p) 1 ∧ max (n - p) 1 ≤ 59 := by
+  have h1 : 1 ≤ max (n - p) 1 := le_max_right _ _
+  have h2 : max (n - p) 1 ≤ 59 := max_le (by omega) (by norm_num)
+  exact ⟨f64exact_of_int ((max (n - p) 1 : ℕ) : ℤ) (by push_cast; rfl) (by rw [abs_lt]; constructor <;> omega),
+    h1, h2⟩
+
+/-- **`r = modulo(m, ni)` and `r + c` are computed exactly** (l.296, l.298): the second factor of the longitude
+    is the rational model's, a binary64 value in `[0, ni)` -/
+theorem lon_factor_f64exact (R : Rounding fl) (e o : Msg) (n p k : ℕ) (he : e.lon < 131072)
+    (ho : o.lon < 131072) (hk : k < 131072) (hn1 : 1 ≤ n) (hn : n ≤ 59) :
+    fl (fModulo fl (fM fl e o n) (fl ((max (n - p) 1 : ℕ) : ℚ)) + fCpr fl k)
+      = modulo (gMn e o n : ℚ) ((max (n - p) 1 : ℕ) : ℚ) + (k : ℚ) / cprMax ∧
+    F64Exact (modulo (gMn e o n : ℚ) ((max (n - p) 1 : ℕ) : ℚ) + (k : ℚ) / cprMax) ∧
+    0 ≤ modulo (gMn e o n : ℚ) ((max (n - p) 1 : ℕ) : ℚ) + (k : ℚ) / cprMax ∧
+    modulo (gMn e o n : ℚ) ((max (n - p) 1 : ℕ) : ℚ) + (k : ℚ) / cprMax < ((max (n - p) 1 : ℕ) : ℚ) := by
+  obtain ⟨x0, h1, h2⟩ := ni_f64exact n p hn
+  have hm := gMn_range e o n he ho hn1 hn
+  set ni := max (n - p) 1 with hni
+  have hniZ : (0 : ℤ) < (ni : ℤ) := by exact_mod_cast h1
+  have hr := emod_range (gMn e o n) (ni : ℤ) hniZ
+  have hni59 : (ni : ℤ) ≤ 59 := by exact_mod_cast h2
+  have x1 := (lat_even_f64exact (gMn e o n % (ni : ℤ)) k ⟨hr.1, by omega⟩ hk).1
+  rw [fM_eq R e o n he ho hn1 hn, R.exact _ x0,
+    fModulo_eq R _ ni (by rw [abs_le]; constructor <;> omega) h1 (by omega), fCpr_eq R _ hk, cprMax_eq,
+    modulo_int]
+  refine ⟨R.exact _ x1, x1, ?_, ?_⟩
+  · have : (0 : ℚ) ≤ ((gMn e o n % (ni : ℤ) : ℤ) : ℚ) := by exact_mod_cast hr.1
+    have : (0 : ℚ) ≤ (k : ℚ) / 131072 := by positivity
+    linarith
+  · have : ((gMn e o n % (ni : ℤ) : ℤ) : ℚ) ≤ (ni : ℚ) - 1 := by
+      have : gMn e o n % (ni : ℤ) ≤ (ni : ℤ) - 1 := by omega
+      exact_mod_cast this
+    have : (k : ℚ) / 131072 < 1 := by
+      rw [div_lt_one (by norm_num)]; exact_mod_cast hk
+    linarith
+
+/-! ### what is NOT exact: `360/59`, `lat_odd`, `360/ni`, the longitude — error bounds -/
+
+/-- l.215: `D_LAT_ODD` is the rounding of `360/59` (the operands `60`, `59` are exact) -/
+theorem fDLatOdd_err (R : Rounding fl) : |fDLatOdd fl - 360 / 59| ≤ 8 * u + 1 / 2 ^ 100 := by
+  unfold fDLatOdd
+  rw [R.exact _ dlat_even_f64exact.1]
+  have : ((4 : ℚ) * 15 - 1) = 60 - 1 := by norm_num
+  rw [this, R.exact _ dlat_even_f64exact.2.2.2]
+  have : ((60 : ℚ) - 1) = 59 := by norm_num
+  rw [this]
+  exact R.abs_err (by rw [abs_of_pos] <;> norm_num) (by norm_num)
+
+/-- the rational model's `lat_odd` before the `>= 270` wrap -/
+def gLatO0 (e o : Msg) : ℚ := dLatOdd * (modulo (gJ e o : ℚ) 59 + (o.lat : ℚ) / cprMax)
+
+theorem gLatO_eq (e o : Msg) : gLatO e o = wrap270 (gLatO0 e o) := rfl
+
+/-- **`lat_odd` (before the wrap) is within `10⁻¹²` degrees of the rational model's value**: its second factor
+    is exact, the first is the rounded `360/59`, the product is rounded once. (The bound is `984·u + 60·2⁻¹⁰⁰ <
+    1.1·10⁻¹³`.) -/
+theorem lat_odd_err (R : Rounding fl) (e o : Msg) (he : e.lat < 131072) (ho : o.lat < 131072) :
+    |fLatO0 fl e o - gLatO0 e o| ≤ 1 / 10 ^ 12 ∧ 0 ≤ gLatO0 e o ∧ gLatO0 e o < 360 := by
+  have hj := gJ_range e o he ho
+  have hr := emod_range (gJ e o) 59 (by norm_num)
+  have x1 := (lat_even_f64exact (gJ e o % 59) o.lat ⟨hr.1, by omega⟩ ho).1
+  have hD := fDLatOdd_err R
+  unfold fLatO0 gLatO0
+  rw [fJ_eq R e o he ho, fCpr_eq R _ ho, dLatOdd_eq, cprMax_eq]
+  have h59 := fModulo_eq R (gJ e o) 59 (by rw [abs_le]; constructor <;> omega) (by norm_num) (by norm_num)
+  norm_num at h59
+  rw [h59, modulo_59, R.exact _ x1]
+  have hs0 : (0 : ℚ) ≤ ((gJ e o % 59 : ℤ) : ℚ) + (o.lat : ℚ) / 131072 := by
+    have : (0 : ℚ) ≤ ((gJ e o % 59 : ℤ) : ℚ) := by exact_mod_cast hr.1
+    have : (0 : ℚ) ≤ (o.lat : ℚ) / 131072 := by positivity
+    linarith
+  have hs1 : ((gJ e o % 59 : ℤ) : ℚ) + (o.lat : ℚ) / 131072 < 59 := by
+    have : ((gJ e o % 59 : ℤ) : ℚ) ≤ 58 := by
+      have : gJ e o % 59 ≤ 58 := by omega
+      exact_mod_cast this
+    have : (o.lat : ℚ) / 131072 < 1 := by
+      rw [div_lt_one (by norm_num)]; exact_mod_cast ho
+    linarith
+  have hs : |((gJ e o % 59 : ℤ) : ℚ) + (o.lat : ℚ) / 131072| ≤ 59 := by
+    rw [abs_of_nonneg hs0]; linarith
+  have hD' : |fDLatOdd fl| ≤ 8 := by
+    have := abs_le.mp hD
+    have hu : 8 * u + 1 / 2 ^ 100 ≤ 1 := by unfold u; norm_num
+    rw [abs_le]; constructor <;> linarith
+  have := R.mul_err (P := 512) hD hs (by linarith) (by norm_num)
+  refine ⟨le_trans this (by unfold u; norm_num), by positivity, ?_⟩
+  nlinarith
+
+/-- **the longitude (before the `>= 180` wrap) is within `10⁻¹²` degrees of the rational model's value**, for all
+    17-bit fields, every `nl ∈ 1..59` and `p`: `360/ni` is rounded once (`ni` exact), the second factor is exact,
+    the product is rounded once.  (The bound is `721·u + 60·2⁻¹⁰⁰ < 8.1·10⁻¹⁴`.) -/
+theorem lon_err (R : Rounding fl) (e o : Msg) (n p k : ℕ) (he : e.lon < 131072) (ho : o.lon < 131072)
+    (hk : k < 131072) (hn1 : 1 ≤ n) (hn : n ≤ 59) :
+    |fLon0 fl e o n p k - gLon0 e o n p k| ≤ 1 / 10 ^ 12 ∧ 0 ≤ gLon0 e o n p k ∧ gLon0 e o n p k < 360 := by
+  obtain ⟨x0, h1, h2⟩ := ni_f64exact n p hn
+  obtain ⟨f1, _, f3, f4⟩ := lon_factor_f64exact R e o n p k he ho hk hn1 hn
+  unfold fLon0 gLon0
+  rw [f1, R.exact _ x0]
+  set ni := max (n - p) 1 with hni
+  set s := modulo (gMn e o n : ℚ) (ni : ℚ) + (k : ℚ) / cprMax with hs
+  have hniQ : (1 : ℚ) ≤ (ni : ℚ) := by exact_mod_cast h1
+  have hni59 : (ni : ℚ) ≤ 59 := by exact_mod_cast h2
+  have hnipos : (0 : ℚ) < (ni : ℚ) := by linarith
+  have hDpos : (0 : ℚ) < 360 / (ni : ℚ) := by positivity
+  have hDle : 360 / (ni : ℚ) ≤ 360 := by rw [div_le_iff₀ hnipos]; nlinarith
+  have hDni : 360 / (ni : ℚ) * (ni : ℚ) = 360 := by field_simp
+  have hD : |fl (360 / (ni : ℚ)) - 360 / (ni : ℚ)| ≤ 360 / (ni : ℚ) * u + 1 / 2 ^ 100 :=
+    R.abs_err (by rw [abs_of_pos hDpos]) (by linarith)
+  have hsabs : |s| ≤ (ni : ℚ) := by rw [abs_of_nonneg f3]; linarith
+  have hD' : |fl (360 / (ni : ℚ))| * (ni : ℚ) ≤ 361 := by
+    have h := abs_le.mp hD
+    have : |fl (360 / (ni : ℚ))| ≤ 360 / (ni : ℚ) + (360 / (ni : ℚ) * u + 1 / 2 ^ 100) := by
+      rw [abs_le]; constructor <;> linarith
+    have h3 := mul_le_mul_of_nonneg_right this (le_of_lt hnipos)
+    have e3 : (360 / (ni : ℚ) + (360 / (ni : ℚ) * u + 1 / 2 ^ 100)) * (ni : ℚ)
+        = 360 + 360 * u + (ni : ℚ) / 2 ^ 100 := by
+      have : (360 / (ni : ℚ) + (360 / (ni : ℚ) * u + 1 / 2 ^ 100)) * (ni : ℚ)
+          = 360 / (ni : ℚ) * (ni : ℚ) * (1 + u) + (ni : ℚ) / 2 ^ 100 := by ring
+      rw [this, hDni]; ring
+    rw [e3] at h3
+    have : 360 * u + (ni : ℚ) / 2 ^ 100 ≤ 1 := by
+      have : (ni : ℚ) / 2 ^ 100 ≤ 59 / 2 ^ 100 := div_le_div_of_nonneg_right hni59 (by positivity)
+      have : 360 * u + 59 / 2 ^ 100 ≤ 1 := by unfold u; norm_num
+      linarith
+    linarith
+  have := R.mul_err (P := 361) hD hsabs hD' (by norm_num)
+  have e4 : (360 / (ni : ℚ) * u + 1 / 2 ^ 100) * (ni : ℚ) = 360 * u + (ni : ℚ) / 2 ^ 100 := by
+    have : (360 / (ni : ℚ) * u + 1 / 2 ^ 100) * (ni : ℚ)
+        = 360 / (ni : ℚ) * (ni : ℚ) * u + (ni : ℚ) / 2 ^ 100 := by ring
+    rw [this, hDni]
+  rw [e4] at this
+  have hb : 360 * u + (ni : ℚ) / 2 ^ 100 + 361 * u + 1 / 2 ^ 100 ≤ 1 / 10 ^ 12 := by
+    have : (ni : ℚ) / 2 ^ 100 ≤ 59 / 2 ^ 100 := div_le_div_of_nonneg_right hni59 (by positivity)
+    have : 360 * u + 59 / 2 ^ 100 + 361 * u + 1 / 2 ^ 100 ≤ 1 / 10 ^ 12 := by unfold u; norm_num
+    linarith
+  refine ⟨le_trans this hb, by positivity, ?_⟩
+  calc 360 / (ni : ℚ) * s < 360 / (ni : ℚ) * (ni : ℚ) := mul_lt_mul_of_pos_left f4 hDpos
+    _ = 360 := hDni
+
+/-- a comparison with a constant is decided alike unless the exact value is within `ε` of it -/
+theorem ge_iff_of_far {x' x ε c : ℚ} (h : |x' - x| ≤ ε) (far : ε < |x - c|) : (x' ≥ c ↔ x ≥ c) := by
+  have := abs_le.mp h
+  constructor
+  · intro h1
+    by_contra h2
+    rw [not_le] at h2
+    rw [abs_of_neg (by linarith)] at far
+    linarith
+  · intro h1
+    rw [abs_of_nonneg (by linarith)] at far
+    linarith
+
+theorem le_iff_of_far {x' x ε c : ℚ} (h : |x' - x| ≤ ε) (far : ε < |x - c|) : (x' ≤ c ↔ x ≤ c) := by
+  have := abs_le.mp h
+  constructor
+  · intro h1
+    by_contra h2
+    rw [not_le] at h2
+    rw [abs_of_pos (by linarith)] at far
+    linarith
+  · intro h1
+    rw [abs_of_nonpos (by linarith)] at far
+    linarith
+
+/-- the wraps `if x >= c { x -= 360.0 }` (`c = 270`, `180`) on a perturbed value: one more rounding when taken -/
+theorem wrap_err (R : Rounding fl) {x' x ε c : ℚ} (h : |x' - x| ≤ ε) (hc : 180 ≤ c) (hx : x' ≤ 400)
+    (same : x' ≥ c ↔ x ≥ c) :
+    |(if x' ≥ c then fl (x' - 360) else x') - (if x ≥ c then x - 360 else x)| ≤ ε + 256 * u + 1 / 2 ^ 100 := by
+  have hu : 0 ≤ 256 * u + 1 / 2 ^ 100 := by unfold u; positivity
+  by_cases hx' : x' ≥ c
+  · rw [if_pos hx', if_pos (same.mp hx')]
+    have h1 : |x' - 360| ≤ 256 := by rw [abs_le]; constructor <;> linarith
+    have h2 := R.abs_err h1 (by norm_num)
+    have e : fl (x' - 360) - (x - 360) = (fl (x' - 360) - (x' - 360)) + (x' - x) := by ring
+    rw [e]
+    exact le_trans (abs_add_le _ _) (by linarith)
+  · rw [if_neg hx', if_neg (fun h => hx' (same.mpr h))]
+    linarith
+
+/-- **`lat_odd` after the wrap**: within `2·10⁻¹²` degrees of the model when the `>= 270` decision is the same, and
+    the decision IS the same unless the exact value is within `10⁻¹²` of 270 -/
+theorem lat_odd_wrapped_err (R : Rounding fl) (e o : Msg) (he : e.lat < 131072) (ho : o.lat < 131072) :
+    ((fLatO0 fl e o ≥ 270 ↔ gLatO0 e o ≥ 270) → |fLatO fl e o - gLatO e o| ≤ 2 / 10 ^ 12) ∧
+    (1 / 10 ^ 12 < |gLatO0 e o - 270| → (fLatO0 fl e o ≥ 270 ↔ gLatO0 e o ≥ 270)) := by
+  obtain ⟨h1, h2, h3⟩ := lat_odd_err R e o he ho
+  refine ⟨fun same => ?_, fun far => ge_iff_of_far h1 far⟩
+  have hx : fLatO0 fl e o ≤ 400 := by have := abs_le.mp h1; linarith
+  have := wrap_err R h1 (by norm_num : (180 : ℚ) ≤ 270) hx same
+  rw [gLatO_eq]; unfold fLatO fWrap270 wrap270
+  refine le_trans this (by unfold u; norm_num)
+
+/-- **the returned longitude**: within `2·10⁻¹²` degrees of the model's when the `>= 180` decision is the same
+    (otherwise the two differ by 360°, the same point), and the decision IS the same unless the exact value is
+    within `10⁻¹²` of 180 -/
+theorem lon_wrapped_err (R : Rounding fl) (e o : Msg) (n p k : ℕ) (he : e.lon < 131072) (ho : o.lon < 131072)
+    (hk : k < 131072) (hn1 : 1 ≤ n) (hn : n ≤ 59) :
+    ((fLon0 fl e o n p k ≥ 180 ↔ gLon0 e o n p k ≥ 180) →
+      |fWrap180 fl (fLon0 fl e o n p k) - wrap180 (gLon0 e o n p k)| ≤ 2 / 10 ^ 12) ∧
+    (1 / 10 ^ 12 < |gLon0 e o n p k - 180| → (fLon0 fl e o n p k ≥ 180 ↔ gLon0 e o n p k ≥ 180)) := by
+  obtain ⟨h1, h2, h3⟩ := lon_err R e o n p k he ho hk hn1 hn
+  refine ⟨fun same => ?_, fun far => ge_iff_of_far h1 far⟩
+  have hx : fLon0 fl e o n p k ≤ 400 := by have := abs_le.mp h1; linarith
+  have := wrap_err R h1 (le_refl (180 : ℚ)) hx same
+  unfold fWrap180 wrap180
+  refine le_trans this (by unfold u; norm_num)
+
+/-! ### `airborne_position_with_reference` (l.315-372) and `surface_position_with_reference` (l.380-437)
+
+Both axes have the same shape — `idx = floor(0.5 + ref / d - cpr)` (l.335/360, l.400/425), `d * (idx + cpr)`
+(l.337/361, l.402/426) — with `d = d_lat` (l.323-327: `360/60`, `360/59`; l.388-392: `90/60`, `90/59`) or
+`d = d_lon = 360 / ni` resp. `90 / ni` (l.352, l.417).  `d'` below is the binary64 value the code holds for
+`d`; in every case it is ONE rounding of the exact quotient (`60`, `59`, `ni` are exact), i.e.
+`|d' − d| ≤ d·u + 2⁻¹⁰⁰`, and `3/2 ≤ 90/60 ≤ d ≤ 360`. -/
+
+section LocalDefs
+variable (fl : ℚ → ℚ)
+/-- l.323-327 / l.388-392 (`full = 360` / `90`) -/
+def fDLat (full : ℚ) (m : Msg) : ℚ := if m.parity = .even then fl (full / 60) else fl (full / 59)
+/-- l.352 / l.417 -/
+def fDLon (full : ℚ) (ni : ℕ) : ℚ := if ni > 0 then fl (full / fl (ni : ℚ)) else full
+/-- the argument of the floor in l.335, 360, 400, 425: `0.5 + ref / d - cpr` -/
+def fIdxArg (ref d : ℚ) (k : ℕ) : ℚ := fl (fl (1 / 2 + fl (ref / d)) - fCpr fl k)
+/-- l.335, 360, 400, 425 -/
+def fIdx (ref d : ℚ) (k : ℕ) : ℤ := ⌊fIdxArg fl ref d k⌋
+/-- l.337, 361, 402, 426: `d * (idx + cpr)` -/
+def fCoord (d : ℚ) (j : ℤ) (k : ℕ) : ℚ := fl (d * fl ((j : ℚ) + fCpr fl k))
+end LocalDefs
+
+/-- the rational model's floor argument -/
+def gIdxArg (ref d : ℚ) (k : ℕ) : ℚ := 1 / 2 + ref / d - (k : ℚ) / 131072
+
+/-- l.323/388 (even), l.337/402: `360/60`, `90/60` are binary64 values, and for every integer `|j| ≤ 1024`
+    so are `j + cpr` and its products with `6` and `3/2` — given the zone index, an EVEN report's latitude
+    is computed exactly (airborne and surface) -/
+theorem local_even_f64exact (j : ℤ) (k : ℕ) (hj : |j| ≤ 1024) (hk : k < 131072) :
+    F64Exact (360 / 60 : ℚ) ∧ F64Exact (90 / 60 : ℚ) ∧ F64Exact ((j : ℚ) + (k : ℚ) / 131072) ∧
+    F64Exact (360 / 60 * ((j : ℚ) + (k : ℚ) / 131072)) ∧ F64Exact (90 / 60 * ((j : ℚ) + (k : ℚ) / 131072)) := by
+  have hjj := abs_le.mp hj
+  refine ⟨dlat_even_f64exact.2.1, dlat_even_f64exact.2.2.1,
+    f64exact_17 (131072 * j + k) (by push_cast; ring) (by rw [abs_lt]; constructor <;> omega),
+    f64exact_17 (6 * (131072 * j + k)) (by push_cast; ring) (by rw [abs_lt]; constructor <;> omega), ?_⟩
+  have := f64exact_div_pow (3 * (131072 * j + k)) 18 (by norm_num) (by rw [abs_lt]; constructor <;> omega)
+  have e : (90 / 60 * ((j : ℚ) + (k : ℚ) / 131072)) = ((3 * (131072 * j + k) : ℤ) : ℚ) / 2 ^ 18 := by
+    push_cast; ring
+  rw [e]; exact this
+
+/-- an even report's coordinate `d_lat * (j + cpr_lat)` is exact once `j` is (both decoders) -/
+theorem fCoord_even_eq (R : Rounding fl) (j : ℤ) (k : ℕ) (hj : |j| ≤ 1024) (hk : k < 131072) :
+    fCoord fl (fl (360 / 60)) j k = 360 / 60 * ((j : ℚ) + (k : ℚ) / 131072) ∧
+    fCoord fl (fl (90 / 60)) j k = 90 / 60 * ((j : ℚ) + (k : ℚ) / 131072) := by
+  obtain ⟨a, b, c, d, e⟩ := local_even_f64exact j k hj hk
+  unfold fCoord
+  rw [fCpr_eq R _ hk, R.exact _ a, R.exact _ b, R.exact _ c, R.exact _ d, R.exact _ e]
+  exact ⟨rfl, rfl⟩
+
+/-- the zone sizes the code holds are one rounding of the exact quotient -/
+theorem zone_size_err (R : Rounding fl) (full : ℚ) (hf : full = 360 ∨ full = 90) (n : ℕ) (hn1 : 1 ≤ n)
+    (hn : n ≤ 60) :
+    |fl (full / fl (n : ℚ)) - full / n| ≤ full / n * u + 1 / 2 ^ 100 ∧ 3 / 2 ≤ full / (n : ℚ) ∧
+      full / (n : ℚ) ≤ 360 := by
+  have x0 : F64Exact (n : ℚ) :=
+    f64exact_of_int (n : ℤ) (by push_cast; rfl) (by rw [abs_lt]; constructor <;> omega)
+  have hnQ : (1 : ℚ) ≤ (n : ℚ) := by exact_mod_cast hn1
+  have hn60 : (n : ℚ) ≤ 60 := by exact_mod_cast hn
+  have hnpos : (0 : ℚ) < (n : ℚ) := by linarith
+  have hf90 : (90 : ℚ) ≤ full := by rcases hf with h | h <;> (rw [h]; norm_num)
+  have hf360 : full ≤ 360 := by rcases hf with h | h <;> (rw [h]; norm_num)
+  have hfpos : (0 : ℚ) < full := by linarith
+  have hpos : 0 < full / (n : ℚ) := by positivity
+  have hlo : 3 / 2 ≤ full / (n : ℚ) := by rw [le_div_iff₀ hnpos]; nlinarith
+  have hhi : full / (n : ℚ) ≤ 360 := by rw [div_le_iff₀ hnpos]; nlinarith
+  rw [R.exact _ x0]
+  exact ⟨R.abs_err (by rw [abs_of_pos hpos]) (by linarith), hlo, hhi⟩
+
+/-- shared preliminaries: `d'` is positive and within 20 % of `d` -/
+theorem zone_size_near {d d' η : ℚ} (hd : 3 / 2 ≤ d) (hη : η = 1 / 2 ^ 100)
+    (hd' : |d' - d| ≤ d * u + η) : 4 / 5 * d ≤ d' ∧ d' ≤ d + (d * u + η) := by
+  have hdd := abs_le.mp hd'
+  have h1 : u ≤ 1 / 10 := by unfold u; norm_num
+  have h2 : η ≤ 1 / 10 := by rw [hη]; norm_num
+  have hsmall : d * u + η ≤ d / 5 := by nlinarith
+  exact ⟨by linarith [hdd.1], by linarith [hdd.2]⟩
+
+/-- the quotient `ref / d` (l.335, 360, 400, 425) with the rounded zone size -/
+theorem quot_err {d d' ref η : ℚ} (hd : 3 / 2 ≤ d) (hη : η = 1 / 2 ^ 100)
+    (hd' : |d' - d| ≤ d * u + η) (href : |ref| ≤ 360) :
+    |ref / d' - ref / d| ≤ 300 * u + 200 * η ∧ |ref / d| ≤ 240 := by
+  have hu := u_pos
+  have hηpos : 0 < η := by rw [hη]; positivity
+  have hdpos : 0 < d := by linarith
+  obtain ⟨hd'lo, _⟩ := zone_size_near hd hη hd'
+  have hd'pos : 0 < d' := by linarith
+  refine ⟨?_, by rw [abs_div, abs_of_pos hdpos, div_le_iff₀ hdpos]; linarith⟩
+  have e : ref / d' - ref / d = ref * (d - d') / (d * d') := by field_simp
+  rw [e, abs_div, abs_of_pos (mul_pos hdpos hd'pos), div_le_iff₀ (mul_pos hdpos hd'pos), abs_mul]
+  have h1 : |d - d'| ≤ d * u + η := by rw [abs_sub_comm]; exact hd'
+  have h2 : |ref| * |d - d'| ≤ 360 * (d * u + η) := mul_le_mul href h1 (abs_nonneg _) (by norm_num)
+  have h3 : d * (4 / 5 * d) ≤ d * d' := mul_le_mul_of_nonneg_left hd'lo (le_of_lt hdpos)
+  have h4 : 3 / 2 * d ≤ d * d := by nlinarith
+  have h5 : 9 / 4 ≤ d * d := by nlinarith
+  have h6 : 0 ≤ 300 * u + 200 * η := by positivity
+  have h7 : (300 * u + 200 * η) * (d * (4 / 5 * d)) ≤ (300 * u + 200 * η) * (d * d') :=
+    mul_le_mul_of_nonneg_left h3 h6
+  have e8 : (300 * u + 200 * η) * (d * (4 / 5 * d)) = 240 * u * (d * d) + 160 * η * (d * d) := by ring
+  have a1 : 240 * u * (3 / 2 * d) ≤ 240 * u * (d * d) := mul_le_mul_of_nonneg_left h4 (by positivity)
+  have a2 : 160 * η * (9 / 4) ≤ 160 * η * (d * d) := mul_le_mul_of_nonneg_left h5 (by positivity)
+  have e9 : 360 * (d * u + η) = 240 * u * (3 / 2 * d) + 160 * η * (9 / 4) := by ring
+  calc |ref| * |d - d'| ≤ 360 * (d * u + η) := h2
+    _ = 240 * u * (3 / 2 * d) + 160 * η * (9 / 4) := e9
+    _ ≤ 240 * u * (d * d) + 160 * η * (d * d) := add_le_add a1 a2
+    _ = (300 * u + 200 * η) * (d * (4 / 5 * d)) := e8.symm
+    _ ≤ (300 * u + 200 * η) * (d * d') := h7
+
+/-- **the floor argument** `0.5 + ref / d − cpr` computed with `fl` is within `10⁻¹²` (`≈ 1068·u`) of the exact one -/
+theorem idx_arg_err (R : Rounding fl) {d d' ref : ℚ} (k : ℕ) (hk : k < 131072) (hd : 3 / 2 ≤ d)
+    (hd' : |d' - d| ≤ d * u + 1 / 2 ^ 100) (href : |ref| ≤ 360) :
+    |fIdxArg fl ref d' k - gIdxArg ref d k| ≤ 1 / 10 ^ 12 := by
+  obtain ⟨η, hη⟩ : ∃ η : ℚ, η = 1 / 2 ^ 100 := ⟨_, rfl⟩
+  rw [← hη] at hd'
+  obtain ⟨hκ, hq⟩ := quot_err hd hη hd' href
+  have hc0 : (0 : ℚ) ≤ (k : ℚ) / 131072 := by positivity
+  have hc1 : (k : ℚ) / 131072 < 1 := by rw [div_lt_one (by norm_num)]; exact_mod_cast hk
+  have hsm : 300 * u + 200 * η ≤ 1 := by rw [hη]; unfold u; norm_num
+  have hq' : |ref / d'| ≤ 241 := by
+    have := abs_sub_abs_le_abs_sub (ref / d') (ref / d)
+    linarith
+  have r1 := R.abs_err (B := 256) (le_trans hq' (by norm_num)) (by norm_num)
+  have r1' := abs_le.mp r1
+  have hq'' := abs_le.mp hq'
+  have hub : 256 * u + 1 / 2 ^ 100 ≤ 1 := by unfold u; norm_num
+  have b2 : |1 / 2 + fl (ref / d')| ≤ 256 := by
+    rw [abs_le]; constructor
+    · linarith [r1'.1, hq''.1]
+    · linarith [r1'.2, hq''.2]
+  have r2 := R.abs_err b2 (by norm_num)
+  have r2' := abs_le.mp r2
+  have b2' := abs_le.mp b2
+  have x0 := fCpr_eq R k hk
+  have b3 : |fl (1 / 2 + fl (ref / d')) - fCpr fl k| ≤ 256 := by
+    rw [x0, abs_le]; constructor
+    · linarith [r2'.1, r1'.1, hq''.1]
+    · linarith [r2'.2, r1'.2, hq''.2]
+  have r3 := R.abs_err b3 (by norm_num)
+  rw [x0] at r3
+  have r3' := abs_le.mp r3
+  have hk' := abs_le.mp hκ
+  have hA12 : 300 * u + 200 * η + 3 * (256 * u + 1 / 2 ^ 100) ≤ 1 / 10 ^ 12 := by
+    rw [hη]; unfold u; norm_num
+  unfold fIdxArg gIdxArg
+  rw [x0, abs_le]
+  constructor
+  · linarith [r3'.1, r2'.1, r1'.1, hk'.1]
+  · linarith [r3'.2, r2'.2, r1'.2, hk'.2]
+
+/-- **the coordinate** `d * (idx + cpr)` computed with `fl` for the MODEL's index is within `10⁻¹²` degrees
+    (`≈ 1081·u`) of the rational model's coordinate -/
+theorem coord_err (R : Rounding fl) {d d' ref : ℚ} (k : ℕ) (hk : k < 131072) (hd : 3 / 2 ≤ d) (hd360 : d ≤ 360)
+    (hd' : |d' - d| ≤ d * u + 1 / 2 ^ 100) (href : |ref| ≤ 360) :
+    |fCoord fl d' ⌊gIdxArg ref d k⌋ k - d * ((⌊gIdxArg ref d k⌋ : ℚ) + (k : ℚ) / 131072)| ≤ 1 / 10 ^ 12 := by
+  obtain ⟨η, hη⟩ : ∃ η : ℚ, η = 1 / 2 ^ 100 := ⟨_, rfl⟩
+  have hd'0 := hd'
+  rw [← hη] at hd'
+  have hu := u_pos
+  have hηpos : 0 < η := by rw [hη]; positivity
+  have hdpos : 0 < d := by linarith
+  obtain ⟨hd'lo, hd'hi⟩ := zone_size_near hd hη hd'
+  have hd'pos : 0 < d' := by linarith
+  have hc0 : (0 : ℚ) ≤ (k : ℚ) / 131072 := by positivity
+  have hc1 : (k : ℚ) / 131072 < 1 := by rw [div_lt_one (by norm_num)]; exact_mod_cast hk
+  generalize hAdef : gIdxArg ref d k = A
+  have hAeq : A = 1 / 2 + ref / d - (k : ℚ) / 131072 := by rw [← hAdef]; rfl
+  have hfl0 : ((⌊A⌋ : ℤ) : ℚ) ≤ A := Int.floor_le A
+  have hfl1 : A < ((⌊A⌋ : ℤ) : ℚ) + 1 := Int.lt_floor_add_one A
+  obtain ⟨q, hqdef⟩ : ∃ q : ℚ, q = 360 / d := ⟨_, rfl⟩
+  have hqd : q * d = 360 := by rw [hqdef]; field_simp
+  have hqpos : 0 < q := by rw [hqdef]; positivity
+  have hq240 : q ≤ 240 := by rw [hqdef, div_le_iff₀ hdpos]; linarith
+  have hrq : |ref / d| ≤ q := by
+    rw [abs_div, abs_of_pos hdpos, hqdef]; exact div_le_div_of_nonneg_right href (le_of_lt hdpos)
+  have hrq' := abs_le.mp hrq
+  have hS : |((⌊A⌋ : ℤ) : ℚ) + (k : ℚ) / 131072| ≤ q + 1 / 2 := by
+    rw [abs_le]; constructor
+    · linarith [hrq'.1]
+    · linarith [hrq'.2]
+  have hjabs : |⌊A⌋| ≤ 1024 := by
+    have h1 : ((-1024 : ℤ) : ℚ) ≤ ((⌊A⌋ : ℤ) : ℚ) := by push_cast; linarith [hrq'.1]
+    have h2 : ((⌊A⌋ : ℤ) : ℚ) ≤ ((1024 : ℤ) : ℚ) := by push_cast; linarith [hrq'.2]
+    rw [abs_le]; exact ⟨Int.cast_le.mp h1, Int.cast_le.mp h2⟩
+  have xs := (local_even_f64exact ⌊A⌋ k hjabs hk).2.2.1
+  have x0 := fCpr_eq R k hk
+  unfold fCoord
+  rw [x0, R.exact _ xs]
+  have hεS : (d * u + η) * (q + 1 / 2) = 360 * u + d * u / 2 + η * (q + 1 / 2) := by
+    have : (d * u + η) * (q + 1 / 2) = q * d * u + d * u / 2 + η * (q + 1 / 2) := by ring
+    rw [this, hqd]
+  have g1 : d * u / 2 ≤ 180 * u := by nlinarith
+  have g2 : η * (q + 1 / 2) ≤ η * 241 := mul_le_mul_of_nonneg_left (by linarith) (le_of_lt hηpos)
+  have g3 : 360 * u + 180 * u + η * 241 ≤ 1 := by rw [hη]; unfold u; norm_num
+  have hP : |d'| * (q + 1 / 2) ≤ 541 := by
+    rw [abs_of_pos hd'pos]
+    have h2 : d' * (q + 1 / 2) ≤ (d + (d * u + η)) * (q + 1 / 2) :=
+      mul_le_mul_of_nonneg_right hd'hi (by linarith)
+    have e2 : (d + (d * u + η)) * (q + 1 / 2) = q * d + d / 2 + (d * u + η) * (q + 1 / 2) := by ring
+    rw [e2, hεS, hqd] at h2
+    linarith
+  have hmain := R.mul_err (P := 541) hd' hS hP (by norm_num)
+  rw [hεS] at hmain
+  have h3 : 360 * u + 180 * u + η * 241 + 541 * u + 1 / 2 ^ 100 ≤ 1 / 10 ^ 12 := by
+    rw [hη]; unfold u; norm_num
+  linarith
+
+/-- **One axis of the local decoders under rounding.**  `d` exact zone size (`3/2 ≤ d ≤ 360`), `d'` its
+    binary64 value (`|d' − d| ≤ d·u + 2⁻¹⁰⁰`), `|ref| ≤ 360`, `k` a 17-bit field.  Then
+    1. the computed floor argument is within `10⁻¹²` of the exact one;
+    2. hence the computed zone index is the rational model's unless the exact argument lies within `10⁻¹²`
+       of an integer;
+    3. with the same index, the computed coordinate is within `10⁻¹²` degrees of the model's. -/
+theorem local_axis (R : Rounding fl) {d d' ref : ℚ} (k : ℕ) (hk : k < 131072) (hd : 3 / 2 ≤ d) (hd360 : d ≤ 360)
+    (hd' : |d' - d| ≤ d * u + 1 / 2 ^ 100) (href : |ref| ≤ 360) :
+    |fIdxArg fl ref d' k - gIdxArg ref d k| ≤ 1 / 10 ^ 12 ∧
+    (((⌊gIdxArg ref d k⌋ : ℤ) : ℚ) + 1 / 10 ^ 12 ≤ gIdxArg ref d k →
+      gIdxArg ref d k + 1 / 10 ^ 12 < ((⌊gIdxArg ref d k⌋ : ℤ) : ℚ) + 1 →
+      fIdx fl ref d' k = ⌊gIdxArg ref d k⌋) ∧
+    |fCoord fl d' ⌊gIdxArg ref d k⌋ k - d * ((⌊gIdxArg ref d k⌋ : ℚ) + (k : ℚ) / 131072)| ≤ 1 / 10 ^ 12 :=
+  ⟨idx_arg_err R k hk hd hd' href,
+   fun lo hi => floor_eq_of_close (idx_arg_err R k hk hd hd' href) lo hi,
+   coord_err R k hk hd hd360 hd' href⟩
+
 end Rs1090.Proofs.CprFloat
